@@ -172,6 +172,14 @@ class C15(Prop):
         yield "special-texts", lines
         n = 30000 if tier == "thorough" else 5000
         yield "random-multi-segment", [d_case([rand_seg(rng) for _ in range(rng.randint(1, 5))]) for _ in range(n)]
+        # neighbouring segments that are identical (same text, same style) must both appear
+        lines = []
+        for _ in range(n // 10):
+            seg = rand_seg(rng)
+            k = rng.choice([2, 2, 3])
+            segs = [rand_seg(rng) for _ in range(rng.randrange(0, 2))] + [seg] * k + [rand_seg(rng) for _ in range(rng.randrange(0, 2))]
+            lines.append(d_case(segs))
+        yield "repeated-identical-segments", lines
         yield "snapshots", ["roff " + hx(s) for s in SNAPSHOTS]
         yield "outside-D", [rand_outside(rng) for _ in range(n)] + ["roffo " + hx(s) for s in
                                                                       [ESC + "[1m" + ESC + "[31mhi", ESC + "[38;5;196mX", ESC + "[38;2;1;2;3mX", "plain", "", ESC + "[", "a" + ESC + "[1",
